@@ -33,6 +33,7 @@ def summarise(F, role):
     z = ssym("z")
     variants = variants_from_items(F)
     effects = []  # dicts: variant, kind(scatter|scalar), target, idx, delta, overwrite
+    inits = {}  # weight vector -> its value before the first update
     inner_info = {"count": 0, "full": True, "where": None}
 
     def mk_lc(q):
@@ -106,6 +107,7 @@ def summarise(F, role):
             if ef["kind"] == "scatter" and ef["root"] in env:
                 cur = I_.deref(env[ef["root"]])
                 if isinstance(cur, Vec) and not any(isinstance(x, str) for x in [getattr(cur, "flat_tag", None)]):
+                    inits[ef["target"]] = cur
                     nv = Vec.atom("FLAT:" + ef["target"], cur.length())
                     nv.flat_tag = ef["target"]
                     env[ef["root"]] = nv
@@ -122,7 +124,7 @@ def summarise(F, role):
     roots = {}
     for ef in effects:
         roots.setdefault(ef["root"], set()).add(ef["variant"])
-    return {"role": role, "effects": effects, "guards": guards, "ret": ret, "inner": inner_info, "I": I, "roots": roots, "z": z, "Q": Q, "outer_stars": [it for it in I.trace.items if it[0] == "star"], "fn": fn}
+    return {"role": role, "inits": inits, "n": n, "m": m, "effects": effects, "guards": guards, "ret": ret, "inner": inner_info, "I": I, "roots": roots, "z": z, "Q": Q, "outer_stars": [it for it in I.trace.items if it[0] == "star"], "fn": fn}
 
 
 def reference(role):
@@ -173,6 +175,26 @@ def check(ck, F, role, rule):
     ck.require(len(set(targets)) == len(want), rule, f"{role}:distinct-targets", f"weight vectors are not pairwise distinct: {targets}", where)
     ck.require(not S["guards"], rule, f"{role}:no-early-exit", f"flattening has an early exit the reference lacks: {[str(g[1]) for g in S['guards']]}", where)
     ck.require(S["inner"]["count"] == 1 and S["inner"]["full"], rule, f"{role}:all-terms", "the inner loop does not run over all terms of each constraint exactly once", S["inner"]["where"] or where)
+    # initial values: every weight starts at zero, with n entries (gate weights) resp. m entries (commitment weights)
+    from .alg import vec_eq as _veq, mk_sum as _mk
+
+    for v in want:
+        if v not in by_variant or not by_variant[v]:
+            continue
+        ef = by_variant[v][0]
+        if ef["kind"] == "scatter":
+            ini = S["inits"].get(ef["target"])
+            ln = S["m"] if v == "Committed" else S["n"]
+            why_ = []
+            ck.require(isinstance(ini, Vec) and _veq(ini, Vec.const(Sc(0), ln), why_), rule, f"{role}:init:{v}", f"the weight vector for {v} must start as {ln} zeros; it starts as {ini!r} {why_}", where)
+        else:
+            # scalar accumulator (wc): returned value must be exactly the sum of its per-constraint updates
+            pos = want.index(v)
+            got = ret.items[pos] if isinstance(ret, Tup) and len(ret.items) > pos else None
+            K = isym("_k")
+            fs = [a for a in (got.e.atoms(sp.Function) if isinstance(got, Sc) else []) if str(a.func).startswith("FLATSUM:")]
+            okz = isinstance(got, Sc) and len(fs) >= 1 and eq(got.e, _mk(S["Q"], sfun(str(fs[0].func))(K), K))
+            ck.require(okz, rule, f"{role}:init:{v}", f"the constant weight must start at zero (returned value {got!r} is not the plain sum of its updates)", where)
     loops = [l for l in I.loop_log if l["fn"].endswith("flattened_constraints")]
     outer = [l for l in loops if eq(l["n"], S["Q"])]
     ck.require(len(outer) == 1 and eq(outer[0]["off"], 0) and len(loops) == 1, rule, f"{role}:all-constraints", f"the outer loop does not run over all constraints exactly once (loops seen: {[(str(l['n']), str(l['off'])) for l in loops]})", where)
